@@ -65,6 +65,25 @@ def _split_equals_oneshot(kind_i, b1, b2, two_blocks, c1, c2, c3, real=False):
     return one == payload and got == payload
 
 
+def _empty_piece(kind_i, b1, at, c1, real=False):
+    """An empty piece before, inside or after the body changes nothing (pieces: data[:c1], data[c1:], with b'' inserted at `at`)."""
+    kind = pick(_KINDS, kind_i)
+    data = zmodel.encode(kind, [b1], real)
+    pieces = _pieces(data, c1, 0, 0)
+    at = pick([0, 1, 2], at)
+    pieces = pieces[:at] + [b''] + pieces[at:]
+    try:
+        got = _run(_decoder(kind, real), pieces)
+    except zmodel.OutOfModel:
+        return True
+    hit('decoded')
+    return got == b1
+
+
+def _empty_piece_real(kind_i, b1, at, c1):
+    return _empty_piece(kind_i, b1, at, c1, real=True)
+
+
 def _split_equals_oneshot_real(kind_i, b1, b2, two_blocks, c1, c2, c3):
     return _split_equals_oneshot(kind_i, b1, b2, two_blocks, c1, c2, c3, real=True)
 
@@ -204,6 +223,13 @@ HARNESSES = [
              'wpull/protocol/http/stream.py:Stream._flush_decompressor', 'wpull/protocol/http/stream.py:Stream._setup_decompressor'],
       doc='for gzip / zlib / raw deflate bodies (1-2 stored blocks, symbolic payload bytes) every way of cutting the encoded body into '
           '<=4 non-empty pieces (first piece of one byte included) yields, after flush, exactly the payload = the one-shot result'),
+    H('empty_piece', '_empty_piece', 'kind_i: int, b1: bytes, at: int, c1: int',
+      pre=['0 <= kind_i <= 2 and len(b1) <= 1 and 0 <= at <= 2 and 0 <= c1 <= 12'],
+      parts=[{'tag': k, 'fix': {'kind_i': str(i)}} for i, k in enumerate(_KINDS)],
+      timeout={'quick': 200, 'thorough': 600}, replay_impl='_empty_piece_real', samples=[(1, b'a', 0, 3), (0, b'a', 1, 1)], need=['decoded'],
+      funcs=['wpull/decompression.py:GzipDecompressor.decompress', 'wpull/decompression.py:DeflateDecompressor.decompress'],
+      doc='an empty piece in front of, inside or behind the encoded body does not change the decoded result (in particular it is not '
+          'taken for the first piece when the format is sniffed)'),
     H('bad_is_error', '_bad_is_error', 'kind_i: int, b1: bytes, mode: int, pos: int, val: int, c1: int, c2: int',
       pre={'quick': ['0 <= kind_i <= 2 and len(b1) <= 1 and 0 <= mode <= 1 and 0 <= pos <= 24 and 256 <= val <= 267 and 0 <= c1 <= 3 and 0 <= c2 <= 2'],
            'thorough': ['0 <= kind_i <= 2 and len(b1) <= 3 and 0 <= mode <= 1 and 0 <= pos <= 30 and 0 <= val <= 255 and 0 <= c1 <= 30 and 0 <= c2 <= 12']},
